@@ -102,12 +102,8 @@ func genC04(r *core.Rand, env *core.Env, run int) *Scenario {
 		if ln := strings.ToLower(name); (ln == "blpop" || ln == "brpop") && arity >= 2 {
 			// keep the wait bounded: an unbounded (0) or huge timeout may
 			// legitimately never answer, which this oracle could not tell from a hang
-			to := pick(r, []string{"1", "2", "-1", "x", "", "1.5", "0"})
-			if to == "0" {
-				for j := 1; j < len(a)-1; j++ {
-					a[j] = B(pick(r, []string{"kl", "kmissing"}))
-				}
-			}
+			// (0 = wait forever is documented behaviour and is exercised by C09)
+			to := pick(r, []string{"1", "2", "-1", "x", "", "1.5"})
 			a[len(a)-1] = B(to)
 		}
 		if knownClassC04(env, a) && run%8 != 7 {
